@@ -7,26 +7,32 @@ import (
 	"io"
 	"sort"
 	"strings"
+	"time"
 
 	"verif/simrt"
 )
 
 // C04 — pipelines terminate: no stuck consumer, no leaked goroutine.
 
-var c04Modes = []string{"exhaust", "close", "cancel", "close-then-cancel", "cancel-then-close", "close-twice"}
+var c04Modes = []string{"exhaust", "close", "cancel", "close-then-cancel", "cancel-then-close", "close-twice", "deadline"}
 
 func c04Run(w *W) {
 	kind := simrt.Choose(pkNumKinds)
 	n := simrt.Choose(9)
 	workers := 1 + simrt.Choose(3)
 	buf := simrt.Choose(3)
-	cctx, ccancel := context.WithCancel(w.Ctx)
-	p := buildPipe(cctx, kind, n, workers, buf)
 	mode := 0
 	if w.faulty() {
 		mode = 1 + simrt.Choose(len(c04Modes)-1)
 	}
-	if (p.run != nil || kind == pkBufferedChannel) && mode != 0 {
+	cctx, ccancel := context.WithCancel(w.Ctx)
+	if mode == 6 {
+		// the context handed to the first advance expires on the fake clock
+		cctx, ccancel = context.WithTimeout(w.Ctx, time.Duration(1+simrt.Choose(30))*time.Millisecond)
+		w.Fault("deadline")
+	}
+	p := buildPipe(cctx, kind, n, workers, buf)
+	if (p.run != nil || kind == pkBufferedChannel) && mode != 0 && mode != 6 {
 		mode = 2 // callback-style constructs and a bare channel can only be cancelled
 	}
 	stopAt := simrt.Choose(120)
@@ -67,7 +73,10 @@ func c04Run(w *W) {
 		})
 	}
 	stopState := 0
-	if mode != 0 {
+	if mode == 6 {
+		stopState = 2 // nothing to do: the deadline is the stop
+	}
+	if mode != 0 && mode != 6 {
 		simrt.Spawn("stopper", func() {
 			simrt.WaitStep(stopAt)
 			stopState = 1
@@ -148,4 +157,5 @@ func c04Run(w *W) {
 func init() {
 	Register(&Workload{Prop: "C04", Name: "exhaust", MaxSteps: 20000, Run: c04Run})
 	Register(&Workload{Prop: "C04", Name: "stop", Faulty: true, MaxSteps: 20000, Run: c04Run})
+	Register(&Workload{Prop: "C04", Name: "stop-clockjump", Faulty: true, MaxSteps: 20000, ClockJump: 30, Run: c04Run})
 }
